@@ -406,7 +406,12 @@ pub fn run(tier: Tier) -> i32 {
                 Err(p) => st.violation("tables.road_class", "no_panic", m as u64, || p.clone(), &case),
             }
             let hp = dir.join(if gzip { "headings.csv.gz" } else { "headings.csv" });
-            write(&hp, &(String::from("arrival_heading,departure_heading\n") + &(0..m).map(|i| format!("{},{}\n", (i * 37) % 360, (i * 91 + 5) % 360)).collect::<String>()), gzip);
+            // (tables with an odd number of rows list the two columns in the other order under their names)
+            if m % 2 == 1 {
+                write(&hp, &(String::from("departure_heading,arrival_heading\n") + &(0..m).map(|i| format!("{},{}\n", (i * 91 + 5) % 360, (i * 37) % 360)).collect::<String>()), gzip);
+            } else {
+                write(&hp, &(String::from("arrival_heading,departure_heading\n") + &(0..m).map(|i| format!("{},{}\n", (i * 37) % 360, (i * 91 + 5) % 360)).collect::<String>()), gzip);
+            }
             match guarded(|| read_utils::from_csv::<EdgeHeading>(&hp.as_path(), true, None)) {
                 Ok(Ok(t)) => {
                     if t.len() == m && (0..m).all(|i| t[i].start_heading() as usize == (i * 37) % 360 && t[i].end_heading() as usize == (i * 91 + 5) % 360) {
